@@ -69,6 +69,7 @@ let dec_event j = match jlist j with
   | [JStr "drain"] -> EvDrain
   | [JStr "adv"; n] -> EvAdvance (jz n)
   | [JStr "lost"] -> EvLost
+  | [JStr "cancel"] -> EvCancel
   | _ -> raise (Model_error "event")
 let jopt f j = match j with JNull -> None | x -> Some (f x)
 
@@ -92,7 +93,12 @@ let () = serve (fun fn req ->
       if !stop then JNull else begin
         let hash = jtext (jfield rq "hash") in
         let known = (match jfield rq "known" with JStr "prev" -> (!c).c_len | j -> jopt jz j) in
-        let evs = SL.map dec_event (jlist (jfield rq "events")) in
+        (* 'data_prev': bytes the previous request's peer still sends on ITS connection: they reach this protocol only
+           when request_blob reuses that connection, otherwise that connection is closed and they are dropped *)
+        let reused = (!c).c_open in
+        let evs = SL.concat (SL.map (fun j -> match jlist j with
+            | [JStr "data_prev"; d] -> if reused then [EvData (jbytes d)] else []
+            | _ -> [dec_event j]) (jlist (jfield rq "events"))) in
         c := request hash known !c;
         c := run sha jl !c evs;
         c := drain !c;
